@@ -32,8 +32,9 @@ def findings(case, result):
     d = pe.deadlock_finding(case, result)
     if d:
         out.append(("deadlock", d[0], d[1]))
-    for mech, summary in pe.lifecycle_findings(case, result):
-        out.append(("lifecycle", mech, summary))
+    if case.get("kind", "pool") == "pool":
+        for mech, summary in pe.lifecycle_findings(case, result):
+            out.append(("lifecycle", mech, summary))
     if result.get("status") == "driver-exception":
         w = result.get("witness") or {}
         out.append(("driver", "pool-api-raised", f"pool API raised outside a call: {w.get('exception')} in phase "
@@ -59,7 +60,8 @@ def delay_plans(case, dry, mod, tier, rng):
     sites = pe.sweep_sites(dry, prefixes)
     t = pe.MAX_DELAY
     hot = ("FunctorPool.SendWorkThread.run", "FunctorPool.imap", "FunctorPool.imap_unordered", "FunctorPool._get_results",
-           "FactoryFunctorPool.ReplaceWorkerThread.run", "FactoryFunctorPool.ReplaceWorkerThread.stop", "CMThread.stop")
+           "FactoryFunctorPool.ReplaceWorkerThread.run", "FactoryFunctorPool.ReplaceWorkerThread.stop", "CMThread.stop",
+           "FunctorMap.__call__", "FunctorMap.__exit__", "mul_p_map")
     for role, qn, rel, n in sites:
         if tier == "thorough":
             occs = sorted({1, 2, n} & set(range(1, n + 1)))
@@ -71,11 +73,12 @@ def delay_plans(case, dry, mod, tier, rng):
                 occs.append(rng.randint(2, n - 1))
         for o in occs:
             plans.append([[role, qn, rel, o, "sleep", t]])
-    for role, qn, rel in pe.worker_sites():
+    for role, qn, rel in pe.worker_sites(tuple(getattr(mod, "WORKER_QUALNAMES", ("BaseFunctorWorker.run",)))):
         for o in ((1, 2) if tier == "thorough" else (1,)):
             plans.append([["worker*", qn, rel, o, "sleep", t]])
-            if case["workers"] > 1 and (tier == "thorough" or rng.random() < 0.25):
-                plans.append([["worker0", qn, rel, o, "sleep", t]])
+            for wr in getattr(mod, "WORKER_ROLES", ["worker0"] if case.get("workers", 2) > 1 else []):
+                if tier == "thorough" or rng.random() < 0.25:
+                    plans.append([[wr, qn, rel, o, "sleep", t]])
     single = list(plans)
     # random-k: pairs / triples of delay points from different roles, 20-150 ms
     nk = getattr(mod, "RANDOM_K", {"quick": 8, "thorough": 150})[tier]
@@ -90,7 +93,7 @@ def delay_plans(case, dry, mod, tier, rng):
 
 
 def run_shard(mod, spec):
-    instr.install(MODULES)
+    instr.install(getattr(mod, "MODULES", MODULES))
     res = ShardResult()
     tier, seed, bi = spec["tier"], spec["seed"], spec["base"]
     rng = common.rng_for(mod.PROP, seed, "base", bi)
@@ -123,7 +126,21 @@ def run_shard(mod, spec):
             res.count("runs_where_no_planned_delay_fired")
         if fc_site and fc_site in r.get("covered", []):
             res.count("runs_with_feeder_paused_by_flow_control")
-        res.seen((bi, r.get("switch_sig"), len(c.get("plan", []))))
+        # distinct executions: thread switch pairs seen in the parent + order in which the processes of the case
+        # logged their item / begin / end events (the cross-process interleaving that was actually observed)
+        ranks = {}
+        ilv = []
+        for e in r.get("events", []):
+            if e["ev"] in ("item", "begin_enter", "end_enter", "call_end", "call_start"):
+                ilv.append((e["ev"][0], ranks.setdefault(e["pid"], len(ranks)), e.get("call"), e.get("idx")))
+            elif e["ev"] in ("store_ret", "read_ret"):
+                k = (e["ev"][0], ranks.setdefault(e["pid"], len(ranks)), e.get("g"), str(e.get("out"))[:5])
+                if e["ev"] == "store_ret" or k not in ilv:     # the first outcome of each kind per (reader, id)
+                    ilv.append(k)
+        if getattr(mod, "DISTINCT_BY_PLAN", False):
+            res.seen((bi, common.h64(c.get("plan")), c.get("yield_every")))
+        else:
+            res.seen((bi, r.get("switch_sig"), common.h64(ilv)))
         for e in r.get("events", []):
             if e["ev"] == "begin_enter":
                 res.count("workers_started")
@@ -132,7 +149,7 @@ def run_shard(mod, spec):
         res.count("yields_checked", sum(len(x.get("yields", [])) for x in r.get("calls", [])))
         if hasattr(mod, "observe"):
             mod.observe(c, r, res)
-        fs = findings(c, r)
+        fs = mod.findings(c, r, res) if hasattr(mod, "findings") else findings(c, r)
         for kind, mech, summary in fs:
             if mod.owns(kind, mech, c, r):
                 per_mech[mech] = per_mech.get(mech, 0) + 1
@@ -166,6 +183,8 @@ def run_shard(mod, spec):
                 c = dict(case)
                 c["yield_every"] = ye
                 evaluate(c, pe.run_case(c, scratch), f"yield every {ye} statements")
+        if hasattr(mod, "extra_runs"):
+            mod.extra_runs(case, res, scratch, tier, rng)
         res.sample({"base_case": _brief(case), "dry_run_status": dry.get("status"),
                     "dry_run_switch_pairs": dry.get("switch_pairs")})
     finally:
@@ -187,14 +206,14 @@ def _calls_brief(r):
 
 
 def replay(mod, doc):
-    instr.install(MODULES)
+    instr.install(getattr(mod, "MODULES", MODULES))
     case = doc["replay"]["case"]
     scratch = common.scratch_dir("vf-pool-replay-")
     try:
         hits = []
         for attempt in range(3):
             r = pe.run_case(case, scratch)
-            for kind, mech, summary in findings(case, r):
+            for kind, mech, summary in (mod.findings(case, r, ShardResult()) if hasattr(mod, "findings") else findings(case, r)):
                 if mod.owns(kind, mech, case, r):
                     hits.append(f"{mech}: {summary}")
             if hits:
